@@ -1,6 +1,7 @@
 package main
 
 import (
+	"regexp"
 	"context"
 	"encoding/xml"
 	"fmt"
@@ -56,9 +57,7 @@ func parseResponseNode(n *xNode) parsedResp {
 		case "href":
 			pr.hrefs = append(pr.hrefs, textOf(c))
 		case "status":
-			if f := strings.Fields(textOf(c)); len(f) >= 2 {
-				pr.status, _ = strconv.Atoi(f[1])
-			}
+			pr.status = statusLineCode(textOf(c))
 		case "propstat":
 			code := -1
 			var items [][3]string
@@ -67,10 +66,7 @@ func parseResponseNode(n *xNode) parsedResp {
 					continue
 				}
 				if d.local == "status" {
-					f := strings.Fields(textOf(d))
-					if len(f) >= 2 {
-						code, _ = strconv.Atoi(f[1])
-					}
+					code = statusLineCode(textOf(d))
 				}
 				if d.local == "prop" {
 					for _, p := range d.children {
@@ -107,6 +103,19 @@ func textOf(n *xNode) string {
 }
 
 // a value's content as one string: text, and nested elements as {ns}local(...)
+// RFC 7230 3.1.2: status-line = HTTP-version SP status-code SP reason-phrase (the phrase may be empty, the second SP
+// may not be missing); anything else is not a status line (-7)
+var statusLineRe = regexp.MustCompile(`^HTTP/[0-9]\.[0-9] ([0-9]{3}) [^\r\n]*$`)
+
+func statusLineCode(s string) int {
+	m := statusLineRe.FindStringSubmatch(s)
+	if m == nil {
+		return -7
+	}
+	code, _ := strconv.Atoi(m[1])
+	return code
+}
+
 func flatText(n *xNode) string {
 	var b strings.Builder
 	for _, c := range n.children {
